@@ -1,5 +1,6 @@
 import OsacaVerif.Lemmas.EndToEnd
 import OsacaVerif.Lemmas.EndToEndReport
+import OsacaVerif.Lemmas.EndToEndGlue
 import OsacaVerif.Props.C08
 import OsacaVerif.Props.C11Pipeline
 import OsacaVerif.Props.C13
@@ -25,6 +26,28 @@ namespace OsacaVerif.Props.EndToEnd
 open OsacaVerif OsacaVerif.Text OsacaVerif.EndToEnd OsacaVerif.ParseX86 OsacaVerif.Pipeline
 open OsacaVerif.Spec.X86R (joinLines)
 open OsacaVerif.Props.C11Pipeline (setNum eraseNum SameOnInstr)
+
+/-! ### 0. the glue conversions are faithful where the stage models meet -/
+
+/-- the key `Glue.keyOf` gives an operand identifies it: `Isa.adjEq` (the zero-idiom test
+    `operands[1:] == operands[:-1]`) and `DG.isMemstore` compare operands exactly as `==` does —
+    an identifier operand (no `__eq__`) equals only itself -/
+theorem glue_key_identifies (i j : Nat) (a b : X86.Operand) (h : Glue.keyOf i a = Glue.keyOf j b) :
+    a = b ∨ (∃ n n', a = .ident n ∧ b = .ident n' ∧ i = j) := Glue.keyOf_eq i j a b h
+
+/-- `HAS_LD` / `HAS_ST` as the composition model recomputes them from the converted semantic operands are
+    the flags the roles model reports; both models substitute the same operands by the register wildcard -/
+theorem glue_flags_agree (m : Model) (f : X86.Form) :
+    Compose.hasLd (stagesOf m f).ins = Isa.hasLoad (stagesOf m f).roles.sem ∧
+    Compose.hasSt (stagesOf m f).ins = Isa.hasStore (stagesOf m f).roles.sem ∧
+    (stagesOf m f).ins.operands = f.operands.map Glue.poperandOf ∧
+    Compose.substituteMem (stagesOf m f).ins.operands = Isa.substituteMem (f.operands.map Glue.poperandOf) := by
+  have h := Glue.composeIns_flags f.mnemonic (Glue.opndsOf f.operands)
+    (Isa.assignSrcDst .x86 m.isaDb f.mnemonic (Glue.opndsOf f.operands)).sem
+  have ho : (stagesOf m f).ins.operands = f.operands.map Glue.poperandOf := by
+    simp only [stagesOf, Glue.composeIns]; exact Glue.opndsOf_p f.operands
+  refine ⟨h.1, h.2, ho, ?_⟩
+  rw [ho]; exact Glue.substituteMem_agree _
 
 /-! ### 1. `analyseX86` is the composition of the stage models -/
 
